@@ -1,6 +1,53 @@
-From LD Require Import Base F32 Data Model Ops Bucket Eval EvalFacts.
-(* first obligation; the full statements of DESIGN.md section 6 are added as they are proved *)
-Theorem C18_invalid_ctx_untouched : forall re_ok re_match o E P f,
-  run re_ok re_match o E P CInvalid f = Done (mkoutcome (err_detail KUserNotSpecified) false []).
-Proof. exact run_invalid. Qed.
-Print Assumptions C18_invalid_ctx_untouched.
+(* C18 Timestamp operands denote the right instant *)
+From LD Require Import Base F32 Data Scan Semver Time Model Ops TimeSpec.
+
+(* a rendered RFC 3339 UTC timestamp (years 0000-9999, T/t, Z/z, second 60 allowed) is parsed to the instant of its
+   civil fields *)
+Theorem C18_parse_render_utc : forall y mo d h mi sec tl zl,
+  (0 <= y <= 9999 -> 1 <= mo <= 12 -> 1 <= d <= 31 -> 0 <= h <= 23 -> 0 <= mi <= 59 -> 0 <= sec <= 60 ->
+  (tl = 84%N \/ tl = 116%N) -> (zl = 90%N \/ zl = 122%N) ->
+  parse_rfc3339 (render_utc y mo d h mi sec tl zl) = Some (civil_instant y mo d h mi sec))%Z.
+Proof. exact parse_render_utc. Qed.
+Print Assumptions C18_parse_render_utc.
+
+(* the day count behind civil_instant is the proleptic Gregorian calendar on every month of years 0000-9999 *)
+Theorem C18_day_count_is_gregorian : forall y m,
+  (0 <= y <= 9999 -> 1 <= m <= 12 ->
+  let '(y', m') := next_month y m in days_from_civil y' m' 1 = days_from_civil y m 1 + days_in_month y m)%Z.
+Proof. exact day_count_matches_calendar. Qed.
+Print Assumptions C18_day_count_is_gregorian.
+Theorem C18_epoch_anchor : days_from_civil 1970 1 1 = 0%Z.
+Proof. exact epoch_anchor. Qed.
+Print Assumptions C18_epoch_anchor.
+
+Theorem C18_numeric : forall ms, (- two63 <= ms < two63)%Z -> value_to_time (JNum (dy_of_Z ms)) = Some (ms * 1000000)%Z.
+Proof. exact millis_instant_int. Qed.
+Print Assumptions C18_numeric.
+
+Theorem C18_before_is_strict_order : forall c cv i tc tv,
+  clause_time c i = Some tc -> value_to_time cv = Some tv -> date_op c cv i Z.ltb = (tv <? tc)%Z.
+Proof. exact date_before_is_lt. Qed.
+Print Assumptions C18_before_is_strict_order.
+Theorem C18_after_is_strict_order : forall c cv i tc tv,
+  clause_time c i = Some tc -> value_to_time cv = Some tv -> date_op c cv i (fun a b => (b <? a)%Z) = (tc <? tv)%Z.
+Proof. exact date_after_is_gt. Qed.
+Print Assumptions C18_after_is_strict_order.
+Theorem C18_equal_instants_neither_before_nor_after : forall t, (t <? t)%Z = false.
+Proof. exact equal_instants_neither. Qed.
+Print Assumptions C18_equal_instants_neither_before_nor_after.
+
+Theorem C18_interchangeable : forall c cv cv' i f,
+  value_to_time cv = value_to_time cv' -> date_op c cv i f = date_op c cv' i f.
+Proof. exact representation_irrelevant. Qed.
+Print Assumptions C18_interchangeable.
+
+Theorem C18_rejects_other_types : forall v,
+  match v with JStr _ | JNum _ => False | _ => True end -> value_to_time v = None.
+Proof. exact not_a_timestamp. Qed.
+Print Assumptions C18_rejects_other_types.
+Theorem C18_non_timestamp_never_matches : forall c cv i f, value_to_time cv = None -> date_op c cv i f = false.
+Proof. exact invalid_operand_never_matches. Qed.
+Print Assumptions C18_non_timestamp_never_matches.
+Theorem C18_invalid_clause_value_never_matches : forall c cv i f, clause_time c i = None -> date_op c cv i f = false.
+Proof. exact invalid_clause_value_never_matches. Qed.
+Print Assumptions C18_invalid_clause_value_never_matches.
